@@ -3,11 +3,11 @@ CONSTANTS
   Slots = {"s1", "s2"}
   MaxCalls = 5
   CopyLists = TRUE
-  LocalClusters = FALSE
+  LocalClusters = TRUE
   RefreshParams = TRUE
   OwnScalers = TRUE
   CopyOnHandOut = TRUE
-  KeyedMemo = TRUE
+  KeyedMemo = FALSE
   RejectKeeps = TRUE
 INVARIANT FitRepeatable
 INVARIANT PredStable
